@@ -14,10 +14,16 @@ TA_CLASSES = {'Atom': 'TAAtom', 'VariableTerm': 'TAVar', 'AnonymousVariableTerm'
 
 
 class ClauseTheory(CompilerTheory):
-    COMPS = [('cic', 'Int'), ('hp', '(Array Int String)'), ('hpn', '(Array Int Bool)'), ('hplen', 'Int')]
+    COMPS = [('cic', 'Int'), ('hp', '(Array Int String)'), ('hpn', '(Array Int Bool)'), ('hplen', 'Int'), ('bvs', 'BVS')]
     NO_TERM_COMPS = True
 
     def mk_param(self, ex, st, n, sort, sub):
+        if sort == 'SS':
+            return SV('SS', ex.fresh('(Seq String)', n))
+        if sort == 'HasVars':
+            return SV('HasVars', None, {'variables': ex.fresh('(Seq String)', n + '_variables')})
+        if sort == 'Clause':
+            return SV('Clause', None, {'hargs': ex.fresh('TAL', n + '_hargs'), 'body': ex.fresh('Body', n + '_body')})
         if sort in ('TA', 'TAL', 'CE', 'CEL'):
             e = ex.fresh(sort, n)
             if sub:
@@ -32,8 +38,10 @@ class ClauseTheory(CompilerTheory):
             return SV('SIDict', ex.fresh('(Array String Int)', hint))
         if v.sort == 'OptStr':
             return SV('OptStr', ex.fresh('String', hint), {'none': ex.fresh('Bool', hint + '_none')})
-        if v.sort in ('CSelf', 'HPList', 'Ctx'):
+        if v.sort in ('CSelf', 'HPList', 'Ctx', 'BVStack', 'Clause'):
             return v
+        if v.sort == 'SS':
+            return SV('SS', ex.fresh('(Seq String)', hint))
         return None
 
     def isinstance(self, ex, v, cls, st, node):
@@ -58,12 +66,36 @@ class ClauseTheory(CompilerTheory):
             return [(st, SV('Str', '(tafname %s)' % b))]
         if base.sort == 'CSelf' and attr == 'head_args_by_pos':
             return [(st, SV('HPList', None))]
+        if base.sort == 'CSelf' and attr == 'bound_vars':
+            return [(st, SV('BVStack', None))]
+        if base.sort == 'CSelf' and attr == 'current_clause':
+            return [(st, SV('Clause', None, {}))]
+        if base.sort == 'Clause':
+            if attr == 'head':
+                return [(st, SV('ClauseHead', None, base.meta))]
+            if attr == 'body':
+                return [(st, SV('Body', base.meta['body']))]
+            if attr == 'ctx':
+                return [(st, SV('Ctx', None))]
+        if base.sort == 'ClauseHead' and attr == 'functor':
+            return [(st, SV('HeadFunctor', None, base.meta))]
+        if base.sort == 'HeadFunctor':
+            if attr == 'args':
+                return [(st, SV('TAL', base.meta['hargs']))]
+            if attr == 'variables':
+                return [(st, SV('SS', '(tavarsl %s)' % base.meta['hargs']))]
+        if base.sort == 'HasVars' and attr == 'variables':
+            return [(st, SV('SS', base.meta['variables']))]
+        if base.sort == 'Body' and attr == 'variables':
+            return [(st, SV('SS', '(bodyvars %s)' % b))]
         return CompilerTheory.attr_read(self, ex, base, attr, st, node)
 
     def attr_write(self, ex, base, attr, v, st, node):
         if base.sort == 'CSelf' and attr == 'head_args_by_pos' and v.sort == 'PyList' and not v.meta['items']:
             st.comp['hplen'] = '0'
             return [(st, None)]
+        if base.sort == 'CSelf' and attr == 'current_clause':
+            return [(st, None)]        # only used for error positions
         return CompilerTheory.attr_write(self, ex, base, attr, v, st, node)
 
     def subscript(self, ex, e, base, idx, st):
@@ -73,6 +105,9 @@ class ClauseTheory(CompilerTheory):
         if base.sort == 'HPList' and idx.sort == 'Int':
             ex.oblige(st, 'safety.index', AND('(<= 0 %s)' % idx.e, '(< %s %s)' % (idx.e, st.comp['hplen'])), 'safety')
             return [(st, SV('OptStr', '(select %s %s)' % (st.comp['hp'], idx.e), {'none': '(select %s %s)' % (st.comp['hpn'], idx.e)}))]
+        if base.sort == 'BVStack' and idx.e == '(- 1)':
+            ex.oblige(st, 'safety.bound_vars_not_empty', '((_ is bvpush) %s)' % st.comp['bvs'], 'safety')
+            return [(st, SV('SS', '(bvtop %s)' % st.comp['bvs']))]
         if base.sort == 'SIDict' and idx.sort in ('Str', 'OptStr'):
             if idx.sort == 'OptStr':
                 ex.oblige(st, 'safety.key_not_none', NOT(idx.meta['none']), 'safety')
@@ -133,6 +168,13 @@ class ClauseTheory(CompilerTheory):
             else:
                 raise OutOfSubset('append of %s to head_args_by_pos' % args[0].sort, e)
             st.comp['hplen'] = '(+ %s 1)' % k
+            return [(st, NONE)]
+        if base.sort == 'BVStack' and meth == 'append' and len(args) == 1 and args[0].sort == 'SS':
+            st.comp['bvs'] = '(bvpush %s %s)' % (args[0].e, st.comp['bvs'])
+            return [(st, NONE)]
+        if base.sort == 'BVStack' and meth == 'pop' and not args:
+            ex.oblige(st, 'safety.bound_vars_not_empty', '((_ is bvpush) %s)' % st.comp['bvs'], 'safety')
+            st.comp['bvs'] = '(bvrest %s)' % st.comp['bvs']
             return [(st, NONE)]
         if base.sort == 'SIDict' and meth == 'setdefault' and len(args) == 2 and args[0].sort == 'Str' and args[1].sort == 'Int' \
                 and isinstance(e.func.value, ast.Name):
@@ -203,8 +245,28 @@ class ClauseTheory(CompilerTheory):
         return CompilerTheory.apply_name(self, ex, e, name, args, st)
 
     def ev_ListComp(self, ex, e, st):
-        # [ self.m(a, extra...) for a in L ] with m a contract function that has a list-lifted specification
         g = e.generators[0] if len(e.generators) == 1 else None
+        if g is not None and isinstance(g.target, ast.Name) and isinstance(e.elt, ast.Name) and e.elt.id == g.target.id and len(g.ifs) == 1:
+            t = g.ifs[0]
+            v = g.target.id
+            # [v for v in X if v not in Y]
+            if isinstance(t, ast.Compare) and len(t.ops) == 1 and isinstance(t.ops[0], ast.NotIn) and isinstance(t.left, ast.Name) and t.left.id == v:
+                outs = []
+                for st2, xs in ex.eval(g.iter, st):
+                    for st3, ys in ex.eval(t.comparators[0], st2):
+                        if isinstance(xs, Exc) or isinstance(ys, Exc) or xs.sort != 'SS' or ys.sort != 'SS':
+                            raise OutOfSubset('filter comprehension', e)
+                        outs.append((st3, SV('SS', '(sminus %s %s)' % (xs.e, ys.e))))
+                return outs
+            # [v for v in self.head_args_by_pos if v != None]
+            if isinstance(t, ast.Compare) and len(t.ops) == 1 and isinstance(t.ops[0], (ast.NotEq, ast.IsNot)) \
+                    and isinstance(t.comparators[0], ast.Constant) and t.comparators[0].value is None:
+                outs = []
+                for st2, xs in ex.eval(g.iter, st):
+                    if isinstance(xs, Exc) or xs.sort != 'HPList':
+                        raise OutOfSubset('filter comprehension', e)
+                    outs.append((st2, SV('SS', '(hpnames %s %s %s)' % (st2.comp['hp'], st2.comp['hpn'], st2.comp['hplen']))))
+                return outs
         if g is None or g.ifs or not isinstance(g.target, ast.Name) or not isinstance(e.elt, ast.Call):
             return None
         f = e.elt.func
@@ -220,6 +282,9 @@ class ClauseTheory(CompilerTheory):
             if isinstance(lst, Exc):
                 outs.append((st2, lst))
                 continue
+            if lst.sort == 'SS' and c.ghost.get('maps_ss'):
+                outs.append((st2, SV('Code', '(%s %s)' % (c.ghost['maps_ss'], lst.e))))
+                continue
             if lst.sort != 'TAL':
                 raise OutOfSubset('comprehension over %s' % lst.sort, e)
             for st3, rest in ex.eval_args(e.elt.args[1:], st2):
@@ -228,10 +293,41 @@ class ClauseTheory(CompilerTheory):
                     outs.append((st3.fork().tag('comprehension.raises:' + cls_), Exc(cls_)))
         return outs
 
+    def contract_views(self, ex, a, st):
+        if a.sort == 'HeadFunctor':
+            return {'variables': '(tavarsl %s)' % a.meta['hargs']}
+        if a.sort == 'Body':
+            return {'variables': '(bodyvars %s)' % a.e}
+        return None
+
+    def coerce(self, ex, a, want, st):
+        if want == 'Any':
+            return a
+        if want == 'HasVars' and a.sort in ('HeadFunctor', 'Body'):
+            return SV('HasVars', None, {'variables': self.contract_views(ex, a, st)['variables']})
+        return CompilerTheory.coerce(self, ex, a, want, st)
+
+    def binop(self, ex, e, a, b, st):
+        if isinstance(e.op, ast.Add) and a.sort == 'SS' and b.sort == 'SS':
+            return SV('SS', '(seq.++ %s %s)' % (a.e, b.e))
+        return CompilerTheory.binop(self, ex, e, a, b, st)
+
+    def call_name_ast(self, ex, e, st):
+        # list(dict.fromkeys(X)): order-preserving de-duplication (A-PY-DICTORDER)
+        if isinstance(e.func, ast.Name) and e.func.id == 'list' and len(e.args) == 1 and isinstance(e.args[0], ast.Call) \
+                and ast.unparse(e.args[0].func) == 'dict.fromkeys' and len(e.args[0].args) == 1:
+            outs = []
+            for st2, v in ex.eval(e.args[0].args[0], st):
+                if isinstance(v, Exc) or v.sort != 'SS':
+                    raise OutOfSubset('dict.fromkeys over %s' % getattr(v, 'sort', v), e)
+                outs.append((st2, SV('SS', '(sdedupe %s)' % v.e)))
+            return outs
+        return None
+
     def mk_ret(self, ex, sort, e, st):
+        if sort == 'SS':
+            return SV('SS', e)
         if sort in ('CE', 'CEL', 'TA', 'TAL'):
             return SV(sort, e)
         return CompilerTheory.mk_ret(self, ex, sort, e, st)
 
-    def coerce(self, ex, a, want, st):
-        return CompilerTheory.coerce(self, ex, a, want, st)
